@@ -268,6 +268,21 @@ def run(ctx: Ctx) -> int:
         ok = shifted and told
         ctx.oblige("C13.b", ok, class_arm[0], "a call through the class (`Class.m(self, ...)`) is told apart from a bound call and its positions are shifted by the explicit instance" if ok else "get_node_component resolves `Class.m(self, ...)` to (Class, 'm') exactly like `self.m(...)`, and remove_given_parameters counts call positions against the callee's parameters without its first one in both cases: in `Base.__init__(self, **kwargs)` the instance argument counts as the callee's first named parameter - `a` of `Base.__init__(self, a=1, b='x')` is not offered although `Child(a=3)` is legal", fn=fnc, construct="explicit instance shifts positions")
 
+    # the shift by the explicit instance drops exactly call position 0 (the instance) and moves the rest down by one
+    shifts = [n for n in ast.walk(fr) if isinstance(n, (ast.SetComp, ast.ListComp, ast.GeneratorExp)) and isinstance(n.elt, ast.BinOp) and isinstance(n.elt.op, ast.Sub) and isinstance(n.elt.right, ast.Constant) and n.elt.right.value == 1]
+    if class_arm and shifts:
+        sc = shifts[0]
+        tv = sc.generators[0].target.id if isinstance(sc.generators[0].target, ast.Name) else ""
+        conds = sc.generators[0].ifs
+        okc = len(conds) == 1 and ((isinstance(conds[0], ast.Compare) and _is_name(conds[0].left, tv) and len(conds[0].ops) == 1 and isinstance(conds[0].comparators[0], ast.Constant) and ((isinstance(conds[0].ops[0], ast.Gt) and conds[0].comparators[0].value == 0) or (isinstance(conds[0].ops[0], ast.GtE) and conds[0].comparators[0].value == 1) or (isinstance(conds[0].ops[0], ast.NotEq) and conds[0].comparators[0].value == 0))) or _is_name(conds[0], tv))
+        ctx.oblige("C13.b", okc, sc, "only call position 0 (the instance) is dropped by the shift" if okc else f"the shift keeps positions under `{ast.unparse(conds[0]) if conds else 'no condition'}`: call position 1 - the first real argument of `Class.m(self, 7, **kwargs)` - is dropped together with the instance, so the parameter it hard-codes stays offered (instantiation: got multiple values)", fn=fr, construct="shift drops position 0 only")
+    # ... and a call through the instance itself (`self.m(...)`) is NOT such a call
+    if ctx.repo.has_func(f"{M}:ParametersVisitor.is_unbound_method_call"):
+        fub = ctx.func(f"{M}:ParametersVisitor.is_unbound_method_call")
+        false_rets = [r for r in walk_local(fub) if isinstance(r, ast.Return) and isinstance(r.value, ast.Constant) and r.value.value is False]
+        okb = any(any("self_name" in ast.unparse(t) and pol for t, pol in guard_atoms(r, stop=fub)) for r in false_rets) or any(isinstance(r, ast.Return) and r.value is not None and "self_name" in ast.unparse(r.value) for r in walk_local(fub))
+        ctx.oblige("C13.b", okb, fub, "a call whose receiver is the method's own instance parameter is a bound call" if okb else "is_unbound_method_call no longer excludes receivers named like the instance parameter: `self.configure(8, **kwargs)` is treated like `Class.configure(self, 8, **kwargs)`, positions shift by one and the hard-coded parameter stays offered", fn=fub, construct="self receiver is bound")
+
     # =========================================================== C13.c
     fs = ctx.func(f"{M}:split_args_and_kwargs")
     comps = [s for s in _assigns(fs) if isinstance(s.value, ast.ListComp)]
@@ -487,6 +502,24 @@ def run(ctx: Ctx) -> int:
     ctx.oblige("C13.e", "name" in kw and from_arg(kw["name"], 0), ctor[0], "the offered parameter is named by the first argument of the pop/get call", fn=fpp, construct="name from args[0]")
     ctx.oblige("C13.e", "default" in kw and from_arg(kw["default"], 1), ctor[0], "its default is the second argument of the pop/get call", fn=fpp, construct="default from args[1]")
     ctx.oblige("C13.e", "kind" in kw and _kind_names(kw["kind"]) == {"KEYWORD_ONLY"}, ctor[0], "it can only be given by keyword", fn=fpp, construct="kind")
+
+    # the table of literal defaults (`{}` / `[]`) maps each literal to ITS OWN value: a lambda in the comprehension that
+    # reads the loop variable when called sees the last literal for every entry (kwargs.pop("o", {}) offered with default [])
+    modr = ctx.repo.mod(M)
+    n_tbl = 0
+    for st in modr.tree.body:
+        if isinstance(st, ast.Assign) and isinstance(st.value, (ast.DictComp, ast.ListComp)):
+            comp_ = st.value
+            tvars = {x.id for g_ in comp_.generators for x in ast.walk(g_.target) if isinstance(x, ast.Name)}
+            vals = [comp_.value] if isinstance(comp_, ast.DictComp) else [comp_.elt]
+            for v in vals:
+                for lam in [x for x in ast.walk(v) if isinstance(x, ast.Lambda)]:
+                    n_tbl += 1
+                    bound = {a.arg for a in lam.args.args + lam.args.kwonlyargs}
+                    free = {x.id for x in ast.walk(lam.body) if isinstance(x, ast.Name)} & tvars - bound
+                    ctx.oblige("C13.e", not free, lam, "stored callable binds the loop value" if not free else f"a lambda stored by a module-level comprehension reads the loop variable {sorted(free)} when it is CALLED: every entry of `{ast.unparse(st.targets[0])}` then yields the last literal - kwargs.pop('options', {{}}) is offered with default [] and the component fails on it", function=f"{M}:<module>", site=f"{M}:<module> :: {ast.unparse(st)[:80]}", construct="late-binding lambda in table")
+    lit = [st for st in modr.tree.body if isinstance(st, ast.Assign) and any(isinstance(t, ast.Name) and t.id == "ast_literals" for t in st.targets)]
+    ctx.need(lit, "module-level ast_literals table")
 
     # =========================================================== C13.f
     fsup = ctx.func(f"{M}:ast_is_supported_super_call")
